@@ -45,9 +45,13 @@ func (e *Error) String() string {
 	return e.Error()
 }
 
+// lineBreakEscaper escapes line breaks in error messages. An error is reported in one line so the
+// message must not contain any line break even if some user input is echoed in it.
+var lineBreakEscaper = strings.NewReplacer("\n", "\\n", "\r", "\\r")
+
 func errorAt(pos *Pos, kind string, msg string) *Error {
 	return &Error{
-		Message: msg,
+		Message: lineBreakEscaper.Replace(msg),
 		Line:    pos.Line,
 		Column:  pos.Col,
 		Kind:    kind,
@@ -56,7 +60,7 @@ func errorAt(pos *Pos, kind string, msg string) *Error {
 
 func errorfAt(pos *Pos, kind string, format string, args ...interface{}) *Error {
 	return &Error{
-		Message: fmt.Sprintf(format, args...),
+		Message: lineBreakEscaper.Replace(fmt.Sprintf(format, args...)),
 		Line:    pos.Line,
 		Column:  pos.Col,
 		Kind:    kind,
